@@ -20,4 +20,19 @@ theorem mbi_load_eq (p : Profile) (ptr inner : V) (nn : Bool) (r : Ex MemErr Uni
   cases nn <;> cases r <;> cases endOk <;>
     simp [evalO, Gen.Fns.mbi_load, eval, prim2, okOr, mapErr, tryV, unop, set_other, encMemErr]
 
+/-- `has_valid_end_tag`: the decision is `typ == 0 && size == 8` on the tag header it looks at ... -/
+theorem has_valid_end_tag_eq (p : Profile) (typ size : Nat) (hs : size < W32) :
+    evalO p [.int .u32 typ, .int .u32 size] Gen.Fns.has_valid_end_tag =
+      some (.ok (.bool (decide (typ = 0) && decide (size = 8)))) := by
+  by_cases h1 : typ = 0 <;>
+    simp [evalO, Gen.Fns.has_valid_end_tag, eval, binop, arith, castV, mod_W64_of_lt_W32 hs, h1]
+
+/-- ... and the header it looks at is the one `size_of::<EndTag>()` bytes before the end of the payload, i.e. the LAST 8
+    bytes of the declared region (the offset `8 + pl - 8` of the model's `load`): pinned on the source text of the pointer -/
+theorem has_valid_end_tag_reads_last_8 :
+    Gen.Fns.has_valid_end_tag = none ∨
+      ("end_tag_ptr", "self.0.payload().as_ptr().add(self.0.header().payload_len()).sub(size_of::<EndTag>()).cast::<TagHeader>()")
+        ∈ Gen.Fns.has_valid_end_tag_aliases := by
+  decide
+
 end Mb2.Fns
